@@ -253,57 +253,31 @@ class PowerManagingActor(Actor):  # pylint: disable=too-many-instance-attributes
         Returns:
             The target power.
         """
-        tgt_power_shift: Power | None = None
-        tgt_power_no_shift: Power | None = None
+        # The operating point power is always calculated first, against the system
+        # bounds, and the regular actors' power against the bounds shifted by it, which
+        # are also the bounds reported to the regular actors.
+        op_proposal: Proposal | None = None
+        regular_proposal: Proposal | None = None
         if proposal is not None:
             if proposal.set_operating_point:
-                tgt_power_shift = self._set_op_power_group.calculate_target_power(
-                    component_ids,
-                    proposal,
-                    self._system_bounds[component_ids],
-                    must_send,
-                )
-                tgt_power_no_shift = self._set_power_group.calculate_target_power(
-                    component_ids,
-                    None,
-                    self._calculate_shifted_bounds(
-                        self._system_bounds[component_ids],
-                        self._set_op_power_group.get_target_power(component_ids),
-                    ),
-                    must_send,
-                )
+                op_proposal = proposal
             else:
-                tgt_power_no_shift = self._set_power_group.calculate_target_power(
-                    component_ids,
-                    proposal,
-                    self._system_bounds[component_ids],
-                    must_send,
-                )
-                tgt_power_shift = self._set_op_power_group.calculate_target_power(
-                    component_ids,
-                    None,
-                    self._calculate_shifted_bounds(
-                        self._system_bounds[component_ids],
-                        self._set_power_group.get_target_power(component_ids),
-                    ),
-                    must_send,
-                )
-        else:
-            tgt_power_no_shift = self._set_power_group.calculate_target_power(
-                component_ids,
-                None,
+                regular_proposal = proposal
+        tgt_power_shift = self._set_op_power_group.calculate_target_power(
+            component_ids,
+            op_proposal,
+            self._system_bounds[component_ids],
+            must_send,
+        )
+        tgt_power_no_shift = self._set_power_group.calculate_target_power(
+            component_ids,
+            regular_proposal,
+            self._calculate_shifted_bounds(
                 self._system_bounds[component_ids],
-                must_send,
-            )
-            tgt_power_shift = self._set_op_power_group.calculate_target_power(
-                component_ids,
-                None,
-                self._calculate_shifted_bounds(
-                    self._system_bounds[component_ids],
-                    self._set_power_group.get_target_power(component_ids),
-                ),
-                must_send,
-            )
+                self._set_op_power_group.get_target_power(component_ids),
+            ),
+            must_send,
+        )
         if tgt_power_shift is None and tgt_power_no_shift is None:
             return None
         # `None` from one group only means that its target is unchanged, so the power to
